@@ -52,8 +52,10 @@ def _gate_fns(facts):
     if gc is None:
         return set()
     marks = [bb for bb, t in gc.calls() if (callee(t) or "").startswith(HEAP + "mark") or callee(t) == HEAP + "sweep"]
+    # queries only: a method that returns nothing (say, one that resets the marker's bookkeeping) decides nothing
     return {callee(t) for bb, t in gc.calls() if (callee(t) or "").startswith(HEAP) and callee(t) in facts.fns
-            and not any(gc.dominates(m, bb) for m in marks) and not (callee(t) or "").startswith(HEAP + "mark")}
+            and not any(gc.dominates(m, bb) for m in marks) and not (callee(t) or "").startswith(HEAP + "mark")
+            and facts.fns[callee(t)].locals and facts.fns[callee(t)].locals[0] != "()"}
 
 
 def _gate_leaves_false(facts):
@@ -1046,8 +1048,7 @@ def r12p(ctx, rep, rule="R12p"):
     if gc is None:
         return
     marks = [bb for bb, t in gc.calls() if (callee(t) or "").startswith(HEAP + "mark") or callee(t) == HEAP + "sweep"]
-    gate_calls = [(bb, t) for bb, t in gc.calls() if (callee(t) or "").startswith(HEAP) and callee(t) in facts.fns
-                  and not any(gc.dominates(m, bb) for m in marks) and not (callee(t) or "").startswith(HEAP + "mark")]
+    gate_calls = [(bb, t) for bb, t in gc.calls() if callee(t) in _gate_fns(facts)]
     gate_fields = set()
     for bb, t in gate_calls:
         gate_fields |= _self_fields_read(facts, callee(t))
@@ -1268,7 +1269,7 @@ def r12s(ctx, rep, rule="R12s"):
     if not adders:
         rep.anchor_lost(rule, "no function of GlobalEnvironment inserts into `bindings`")
         return
-    gc_reach = cg.reachable_from(RUN_GC)
+    gc_reach = cg.reachable_from([RUN_GC])
     live = sorted(set(r for r in removers if r in gc_reach))
     key = rule + "|GlobalEnvironment.bindings|removal-path"
     if live:
